@@ -20,10 +20,11 @@ CORRESPONDENCE = ("challenger-binding: recursion/src/challenger/circuit.rs + cir
                   "circuit.ops / prove_all_tables / verify_all_tables, and p3-challenger DuplexChallenger "
                   "vs lean/P3R/Model/Transcript.lean (emit, accD1, accDn, native)")
 
+# F5c (`d1:first-row-capacity-unconstrained`) is repaired by fixes/C06-1.diff: its class is no longer
+# known, so an accepted first-row forgery is reported as a VIOLATION (every instance).
 KNOWN_CLASSES = {
     "d>=2:capacity-output-not-exposed",
     "d>=2:recompose-table-does-not-bind-coefficients",
-    "d1:first-row-capacity-unconstrained",
 }
 
 
@@ -112,12 +113,12 @@ CHECK = {
     "lean_modules": ["P3R.Props.C06", "P3R.Witness.C06"],
     "lean_exes": ["p3r_driver_c06"],
     "theorems": [
-        "P3R.C06.challenges_bound_partial", "P3R.C06.duplex_sim", "P3R.C06.step_sim", "P3R.C06.emit_sim",
+        "P3R.C06.challenges_bound_partial", "P3R.C06.first_row_zero", "P3R.C06.duplex_sim", "P3R.C06.step_sim", "P3R.C06.emit_sim",
         "P3R.C06.accDn_congr", "P3R.C06.accDn_ignores",
         "P3R.Witness.C06.honest_accepted_and_bound",
         "P3R.Witness.C06.dn_capacity_output_unbound", "P3R.Witness.C06.dn_recompose_row_unbound",
-        "P3R.Witness.C06.dn_sampled_slot_free", "P3R.Witness.C06.d1_first_row_capacity_free",
-        "P3R.Witness.C06.challenges_bound_false", "P3R.Witness.C06.challenges_bound_d1_needs_first_row",
+        "P3R.Witness.C06.dn_sampled_slot_free", "P3R.Witness.C06.d1_first_row_capacity_rejected",
+        "P3R.Witness.C06.d1_honest_first_row", "P3R.Witness.C06.challenges_bound_false",
     ],
     "run": run,
     "trusted_base": [
@@ -134,7 +135,8 @@ CHECK = {
         "history alphabet observe / sample of base elements; observe_ext, sample_ext, sample_bits, check_pow_witness and clear are "
         "compositions of these with decompositions / recompositions and are not in the model (sample_bits' non-canonical "
         "decomposition is C12)",
-        "D=1: hypothesis cap0 = 0 of challenges_bound_partial (capacity cells of table row 0); false today, finding F5c",
+        "D=1: no hypothesis on the capacity cells of table row 0 any more (fixes/C06-1.diff: the start-of-chain constraint "
+        "covers row 0; F5c fixed, corpus/c06/f5c_first_row_capacity_d1_os.json is a regression case that must be rejected)",
         "D>=2: no positive theorem; the full statement is false (findings F5, F5b)",
         "Poseidon1 challenger configurations and Goldilocks D=2 / KoalaBear are not exercised by the harness (same builder and "
         "executor code paths, different AIR instances)",
@@ -153,12 +155,13 @@ MANIFEST_ENTRY = {
                  "against p3's DuplexChallenger; model vs implementation on shape, accept and bound verdicts",
     "level_claimed": {
         "category": "proof",
-        "text": "challenges_bound_partial: for every D=1 configuration, permutation function, history and assignment, acceptance of the "
-                "emitted permutation rows with zero first-row capacity implies every sampled slot equals the native challenge of the "
-                "observed slots (proved by simulation over the history). The full statement is false of the current code and its "
+        "text": "challenges_bound_partial: for every D=1 configuration, permutation function, history, assignment and value of the "
+                "first row's committed capacity cells, acceptance of the emitted permutation rows implies every sampled slot equals the "
+                "native challenge of the observed slots (proved by simulation over the history; the first-row capacity is forced to zero "
+                "by the repaired start-of-chain constraint, first_row_zero). The full statement is false of the current code and its "
                 "negation is proved on concrete witnesses: D>=2 capacity outputs are not exposed (F5), the recompose table does not "
-                "bind coefficient slots (F5b), the D=1 table's first row capacity is unconstrained (F5c); all three are replayed as "
-                "forged proofs accepted by the real prover/verifier on every run. accDn_congr/accDn_ignores: for D>=2 acceptance does "
+                "bind coefficient slots (F5b); both are replayed as forged proofs accepted by the real prover/verifier on every run; "
+                "the repaired F5c forgery (first-row capacity of the D=1 table) must be rejected on every run. accDn_congr/accDn_ignores: for D>=2 acceptance does "
                 "not depend on hint-output (sampled) slots at all.",
         "design_ref": "4/C06",
     },
